@@ -172,3 +172,300 @@ def build_harness(flavour):
                    libs="-L%s/lib -lrime -lglog -Wl,-rpath,%s/lib" % (b, b), san=(flavour == "asan"))
     open(stamp, "w").write(key)
     return exe
+
+
+# ---------------------------------------------------------------------------
+# running the harness
+# ---------------------------------------------------------------------------
+
+def run_script(exe, template, user_dir, script_lines, log_path=None, crash_at=None, timeout=120, preload=None, extra_env=None):
+    """run one typing history in a child process; returns (rc, stdout, stderr)."""
+    sp = os.path.join(os.path.dirname(user_dir), os.path.basename(user_dir) + ".script")
+    with open(sp, "w") as f:
+        f.write("\n".join(script_lines) + "\n")
+    env = {"ASAN_OPTIONS": "detect_leaks=0:abort_on_error=0", "UBSAN_OPTIONS": "print_stacktrace=1"}
+    if log_path:
+        env["VERIF_DBLOG"] = log_path
+    if crash_at is not None:
+        env["VERIF_CRASH_AT"] = str(crash_at)
+    if preload:
+        env["LD_PRELOAD"] = preload
+    if extra_env:
+        env.update(extra_env)
+    e = dict(os.environ)
+    e.pop("VERIF_DBLOG", None)
+    e.pop("VERIF_CRASH_AT", None)
+    e.update(env)
+    import subprocess
+    try:
+        p = subprocess.run([exe, "run", os.path.join(template, "shared"), user_dir, sp], env=e,
+                           stdout=subprocess.PIPE, stderr=subprocess.PIPE, timeout=timeout, text=True, errors="replace")
+        return p.returncode, p.stdout, p.stderr
+    except subprocess.TimeoutExpired:
+        return 124, "", "timeout"
+
+
+def run_dump(exe, template, user_dir, names, timeout=120):
+    """fresh process: UserDictionary::Load (+ recovery) and raw scan of the named dbs.
+    returns {name: {"load": str, "status": str, "recs": {keyhex: canonical value}}}"""
+    import subprocess
+    e = dict(os.environ)
+    for k in ("VERIF_DBLOG", "VERIF_CRASH_AT", "LD_PRELOAD"):
+        e.pop(k, None)
+    e["ASAN_OPTIONS"] = "detect_leaks=0"
+    try:
+        p = subprocess.run([exe, "dump", os.path.join(template, "shared"), user_dir] + list(names), env=e,
+                           stdout=subprocess.PIPE, stderr=subprocess.PIPE, timeout=timeout, text=True, errors="replace")
+    except subprocess.TimeoutExpired:
+        return None, "timeout"
+    out = {}
+    for l in p.stdout.split("\n"):
+        f = l.split()
+        if not f:
+            continue
+        if f[0] == "load":
+            out.setdefault(f[1], {"recs": {}})["load"] = " ".join(f[2:])
+        elif f[0] == "dump":
+            out.setdefault(f[1], {"recs": {}})["status"] = f[2]
+        elif f[0] == "rec":
+            out.setdefault(f[1], {"recs": {}})["recs"][f[2]] = canon_value(f[2], f[3])
+    if p.returncode != 0:
+        return out, "rc=%d %s" % (p.returncode, p.stderr[-2000:])
+    return out, None
+
+
+# ---------------------------------------------------------------------------
+# hook log -> per-db operation logs and event histories
+# ---------------------------------------------------------------------------
+
+TICK_KEY = "012f7469636b"
+
+
+def unhex(h):
+    return b"" if h == "-" else bytes.fromhex(h)
+
+
+def canon_value(keyhex, valhex):
+    """(commits, tick) of an entry value, n<number> for /tick, * for other metadata"""
+    if keyhex.startswith("01") or keyhex == "-":
+        if keyhex == TICK_KEY:
+            try:
+                return "n%d" % int(unhex(valhex).decode("ascii"))
+            except ValueError:
+                return "?" + valhex
+        return "*"
+    s = unhex(valhex).decode("utf-8", "replace")
+    c = t = None
+    for kv in s.split(" "):
+        if kv.startswith("c="):
+            c = kv[2:]
+        elif kv.startswith("t="):
+            t = kv[2:]
+    try:
+        return "%d,%d" % (int(c), int(t))
+    except (TypeError, ValueError):
+        return "?" + valhex
+
+
+def dentry_tokens(fields):
+    """'<hex text> <hex custom> <syl,syl|->' -> model tokens"""
+    text, custom, code = fields
+    syl = [] if code == "-" else code.split(",")
+    return [text, custom, str(len(syl))] + syl
+
+
+class DbHistory:
+    def __init__(self, name):
+        self.name = name
+        self.ops = []        # canonical op strings, in order
+        self.flags = []      # (loaded, in_txn) the hook saw at each op
+        self.events = []     # model tokens per event
+        self.raw_events = []
+        self.unmodelled = []
+        self.ids = {}
+        self.next_id = 0
+
+    def model_line(self):
+        return "H " + " ".join(" ".join(e) for e in self.events)
+
+
+def parse_log(path):
+    """returns (order, dbs): order = db name of each logged op (global order);
+    dbs = {name: DbHistory}.  Only dbs that logged operations (LevelDb) get events."""
+    lines = []
+    try:
+        with open(path, errors="replace") as f:
+            lines = [l.rstrip("\n") for l in f if l.strip()]
+    except FileNotFoundError:
+        pass
+    names = {l.split("\t")[2] for l in lines if l.startswith("D\t")}
+    dbs = {n: DbHistory(n) for n in names}
+    order = []
+    for l in lines:
+        f = l.split("\t")
+        if f[0] == "D":
+            op, name, k, v, ld, tx = f[1:7]
+            h = dbs[name]
+            if op == "update":
+                s = "U:%s:%s" % (k, canon_value(k, v))
+            elif op == "erase":
+                s = "E:%s" % k
+            else:
+                s = op
+            h.ops.append(s)
+            h.flags.append((ld, tx))
+            order.append(name)
+        elif f[0] == "E":
+            depth, kind, ptr, name = int(f[1]), f[2], f[3], f[4]
+            if name not in dbs or depth != 0:
+                continue
+            h = dbs[name]
+            if kind == "load":
+                h.ids[ptr] = h.next_id
+                h.next_id += 1
+            if ptr not in h.ids:
+                h.unmodelled.append(l)
+                continue
+            u = str(h.ids[ptr])
+            rest = f[5:]
+            if kind == "load":
+                ev = ["L", u]
+            elif kind == "fetchtick":
+                ev = ["T", u]
+            elif kind == "finish":
+                ev = ["F", u]
+            elif kind == "destroy":
+                ev = ["D", u]
+            elif kind == "key":
+                ev = ["K", u, rest[0], rest[1], rest[2]]
+            elif kind == "delete":
+                ev = ["X", u] + dentry_tokens(rest[0].split(" "))
+            elif kind == "commit":
+                tk = "script" if "ScriptTranslator" in rest[0] else "table" if "TableTranslator" in rest[0] else None
+                if tk is None:
+                    h.unmodelled.append(l)
+                    continue
+                segs = rest[2:]
+                ev = ["C", u, tk, rest[1], str(len(segs))]
+                for sg in segs:
+                    g = sg.split(" ")
+                    assert g[0] == "S"
+                    if g[1] == "0":
+                        ev += ["0", g[2], "-", "-", "0", "0"]
+                        continue
+                    parts = " ".join(g[3:]).split(" | ")
+                    ev += ["1", g[2]] + dentry_tokens(parts[0].split(" ")) + [str(len(parts) - 1)]
+                    for pe in parts[1:]:
+                        ev += dentry_tokens(pe.split(" "))
+            else:
+                h.unmodelled.append(l)
+                continue
+            h.events.append(ev)
+            h.raw_events.append(l)
+    return order, dbs
+
+
+def parse_model_output(text):
+    """split the driver's output into per-history dicts"""
+    res, cur = [], None
+    for l in text.split("\n"):
+        if l.startswith("OPS"):
+            cur = {"ops": l.split()[1:], "S": {}, "P": {}, "chk": None}
+        elif cur is None:
+            continue
+        elif l.startswith("UNITS"):
+            cur["units"] = int(l.split()[1])
+        elif l.startswith("S "):
+            f = l.split(" ")
+            cur["S"][int(f[1])] = parse_dict(f[2:])
+        elif l.startswith("P "):
+            f = l.split(" ")
+            cur["P"][int(f[1])] = (int(f[2]), parse_dict(f[3:]))
+        elif l.startswith("CHK"):
+            cur["chk"] = l.split()[1] == "1"
+        elif l.startswith("END"):
+            res.append(cur)
+            cur = None
+    return res
+
+
+def parse_dict(fields):
+    d = {}
+    for x in fields:
+        if x == "-" or not x:
+            continue
+        k, v = x.split("=", 1)
+        d[k] = v
+    return d
+
+
+# ---------------------------------------------------------------------------
+# history generators (one PRNG, seeded by the check)
+# ---------------------------------------------------------------------------
+
+LUNA_WORDS = ["ni", "hao", "nihao", "zhongguo", "women", "shi", "de", "zhong", "guo", "wo", "men", "shijie"]
+
+
+def gen_input(rnd, schema):
+    if schema == "vscript":
+        return "".join(rnd.choice(SYLLABLES) for _ in range(rnd.choice([1, 1, 2, 2, 2, 3])))
+    if schema == "vtable":
+        return "".join(rnd.choice(TABLE_CODES[:4] + ["abc", "c"]) for _ in range(rnd.choice([1, 1, 1, 2])))
+    return "".join(rnd.choice(LUNA_WORDS) for _ in range(rnd.choice([1, 1, 2])))
+
+
+def gen_history(rnd, schema, steps, two_sessions=False, lookups=False):
+    """script lines of one typing history; aims at: whole/partial selection, several
+    commit entries in one commit (list punctuation inside the input), auto-commit
+    punctuation, BackSpace within/after the undo window, deletion, re-typing,
+    session restart, a second session on the same dictionary."""
+    L = ["S 1 %s" % schema]
+    live = [1]
+    if two_sessions:
+        L.append("S 2 %s" % schema)
+        live.append(2)
+    recent = []
+    stats = {}
+
+    def note(k):
+        stats[k] = stats.get(k, 0) + 1
+    for _ in range(steps):
+        sid = rnd.choice(live)
+        r = rnd.random()
+        inp = rnd.choice(recent) if recent and rnd.random() < 0.45 else gen_input(rnd, schema)
+        recent = (recent + [inp])[-4:]
+        if lookups:
+            L.append("L %d %s" % (sid, inp))
+        if r < 0.30:
+            L += ["K %d %s" % (sid, inp), "F %d" % sid]
+            note("commit-top")
+        elif r < 0.50:
+            L += ["K %d %s" % (sid, inp), "P %d %d" % (sid, rnd.randrange(12)), "F %d" % sid]
+            note("commit-selected")
+        elif r < 0.58:
+            other = gen_input(rnd, schema)
+            L += ["K %d %s/%s" % (sid, inp, other), "F %d" % sid]
+            note("commit-two-entries")
+        elif r < 0.64:
+            L += ["K %d %s," % (sid, inp)]
+            note("commit-by-punct")
+        elif r < 0.78:
+            L += ["K %d %s" % (sid, inp), "F %d" % sid]
+            if rnd.random() < 0.4:
+                L.append("T %d" % rnd.choice([1, 3, 4, 10]))
+                note("backspace-after-wait")
+            else:
+                note("backspace-at-once")
+            L.append("K %d {BackSpace}" % sid)
+        elif r < 0.90:
+            L += ["K %d %s" % (sid, inp), "X %d %d" % (sid, rnd.randrange(4)), "R %d" % sid]
+            note("delete")
+        elif r < 0.95:
+            L += ["K %d %s" % (sid, inp), "F %d" % sid, "D %d" % sid, "S %d %s" % (sid, schema)]
+            note("restart-session")
+        else:
+            L += ["K %d %s" % (sid, inp), "C %d" % sid]
+            note("commit-composition")
+        if lookups:
+            L.append("L %d %s" % (sid, inp))
+    return L, stats
